@@ -1,6 +1,7 @@
 package props
 
 import (
+	"strconv"
 	"encoding/json"
 	"fmt"
 	"math/big"
@@ -201,7 +202,9 @@ func c16Gen(seed int64, idx int) *c16Case {
 			c.model.Lens = lens
 		}
 		if r.Chance(1, 2) {
-			pt := core.Pick(r, []string{"[a-z]*", "ab+c", "a.c", "(x|yz)+", "[^0-9]*", ".*", "[a-zé]{2,4}", "日+"})
+			pt := core.Pick(r, []string{"[a-z]*", "ab+c", "a.c", "(x|yz)+", "[^0-9]*", ".*", "[a-zé]{2,4}", "日+",
+				// top-level alternations: the implicit anchors must bind to the whole pattern, not to the first and last branch
+				"(ab)|(yz)", "a|yz", "(x+)|(c)", "ab|c|(yz)", "(a.c)|(x)"})
 			ps := yang.S("pattern", pt)
 			if c.msgOn == "" {
 				custom(ps, "pattern")
@@ -231,7 +234,8 @@ func c16Gen(seed int64, idx int) *c16Case {
 				probe(strings.Repeat("aé日😀", 4)[:0] + string([]rune(strings.Repeat("aé日😀", 4))[:n]))
 			}
 		}
-		for _, s := range []string{"abc", "abbbc", "ab", "abcd", "xabc", "a\nc", "axc", "x", "yz", "xyzx", "xy", "ééé", "日日", "日a", "ABC", "a1", "", " ", "abc ", "\xff"} {
+		for _, s := range []string{"abc", "abbbc", "ab", "abcd", "xabc", "a\nc", "axc", "x", "yz", "xyzx", "xy", "ééé", "日日", "日a", "ABC", "a1", "", " ", "abc ", "\xff",
+			"ab!", "!yz", "abyz", "xxq", "qc", "a", "c", "ayz", "abx"} {
 			probe(s)
 		}
 		c.unassert["\xff"] = true // not a character string at all
@@ -471,6 +475,23 @@ func c16ViolatesOnly(c *c16Case, pr string) bool {
 	return false
 }
 
+// c16FloatVerdict: membership of the probe in the type's range when probe and bounds are
+// converted to float64 first.
+func c16FloatVerdict(c *c16Case, pr string) bool {
+	v, err := strconv.ParseFloat(pr, 64)
+	if err != nil {
+		return false
+	}
+	for _, iv := range c.model.Ints {
+		lo, _ := strconv.ParseFloat(yang.FormatScaled(iv.Lo, c.model.FD), 64)
+		hi, _ := strconv.ParseFloat(yang.FormatScaled(iv.Hi, c.model.FD), 64)
+		if lo <= v && v <= hi {
+			return true
+		}
+	}
+	return false
+}
+
 func c16Class(c *c16Case, pr string, want bool) string {
 	dir := "accepted-outside-value-space"
 	if want {
@@ -484,6 +505,16 @@ func c16Class(c *c16Case, pr string, want bool) string {
 	case "decimal64":
 		if c.floatRange && sigDigits(pr) > 15 {
 			return "C16/decimal64/range-compared-as-float64-beyond-15-digits"
+		}
+		// the probe itself is short but a range bound is not: the listed finding is exactly
+		// "bounds and values compared as float64", so the outcome falls under it iff redoing the
+		// comparison in float64 arithmetic gives the verdict the implementation gave
+		if c.floatRange && c16FloatVerdict(c, pr) != want {
+			for _, iv := range c.model.Ints {
+				if sigDigits(iv.Lo.String()) > 15 || sigDigits(iv.Hi.String()) > 15 {
+					return "C16/decimal64/range-compared-as-float64-beyond-15-digits"
+				}
+			}
 		}
 		if !c.floatRange && sigDigits(pr) > 15 {
 			return "C16/decimal64/64-bit-limits-compared-as-float64"
